@@ -561,11 +561,13 @@ func ruleC20Helper(e *Env, h helperSpec) {
 			if e.C.StaticCallee(&call.Call).Name() != "callForCase" || len(call.Call.Args) != 3 {
 				continue
 			}
-			switch {
-			case fieldLoad(call.Call.Args[2], "Before"):
-				before = call
-			case fieldLoad(call.Call.Args[2], "After"):
-				after = call
+			for _, a := range call.Call.Args { // the hook, at whatever position the parameter list has it
+				switch {
+				case fieldLoad(a, "Before"):
+					before = call
+				case fieldLoad(a, "After"):
+					after = call
+				}
 			}
 		}
 		cfc := e.F("test", "callForCase")
@@ -1026,8 +1028,11 @@ func ruleC20Pred(e *Env) {
 		c := hasCall(cl, p.must)
 		if c == nil && p.fn == "ErrorMatch" {
 			// the two-step spelling of regexp.MatchString: regexp.Compile(pattern) and re.MatchString(err.Error())
-			if hasCall(cl, "(*regexp.Regexp).MatchString") != nil {
+			if m := hasCall(cl, "(*regexp.Regexp).MatchString"); m != nil {
 				c = hasCall(cl, "regexp.Compile")
+				if c == nil && hasCall(fn, "regexp.Compile") != nil {
+					c = m // compiled once by the constructor, the closure matches with the captured regexp
+				}
 			}
 		}
 		switch {
@@ -1149,7 +1154,15 @@ func predReports(e *Env, rule, site string, cl *ssa.Function) {
 				return
 			}
 			for i, ed := range x.Edges {
-				check(ed, x.Block().Preds[i], pos, depth+1)
+				// `assert.A(…) && assert.B(…)` kept as a value: the false of the phi arrives along the false edge of the
+				// branch on A's result — A failed, and reported
+				p := x.Block().Preds[i]
+				if c, isC := ed.(*ssa.Const); isC && c.Value != nil && c.Value.String() == "false" {
+					if iff, ok := p.Instrs[len(p.Instrs)-1].(*ssa.If); ok && isAssertOnT(cl, iff.Cond) != nil && p.Succs[1] == x.Block() && p.Succs[0] != x.Block() {
+						continue
+					}
+				}
+				check(ed, p, pos, depth+1)
 			}
 		default:
 			if isAssertOnT(cl, v) != nil {
@@ -1530,7 +1543,16 @@ func sameCase(hook *ssa.Call, from *ssa.BasicBlock) bool {
 	if len(hook.Call.Args) < 2 {
 		return false
 	}
-	base := hook.Call.Args[1]
+	// the case pointer: the argument whose type is a pointer to the case struct (at whatever position)
+	var base ssa.Value
+	for _, a := range hook.Call.Args {
+		if _, isPtr := a.Type().Underlying().(*types.Pointer); isPtr && structOf(a.Type()) != nil {
+			base = a
+		}
+	}
+	if base == nil {
+		return false
+	}
 	fn := hook.Parent()
 	caseT := structOf(base.Type())
 	if caseT == nil {
